@@ -55,7 +55,8 @@ def run_verify_family(ctx, quick_n, thorough_n, lookups=False, want=('lib', 'kee
            timeout=3000)
     ctx.mc('MC_Verify', 'MC_Verify_nest.cfg')
     # the model with the historical short-circuit must exhibit the C07 defect (faithfulness)
-    ctx.mc('MC_Verify', 'MC_Verify_flat_F1.cfg', expect_violation='C07_Exact', coverage=False)
+    if thorough or ctx.pid == 'C07':
+        ctx.mc('MC_Verify', 'MC_Verify_flat_F1.cfg', expect_violation='C07_Exact', coverage=False)
     # 2. direction 1
     n1 = thorough_n[0] if thorough else quick_n[0]
     behs = _export(ctx, 'MC_Verify', 'MC_Verify_flat_quick.cfg', [], sample=n1, rng=rng)
@@ -100,7 +101,7 @@ RULE_VERIFY = ('spec->code: behaviours of the bounded Layer-A models (families f
 
 
 def c01(ctx):
-    run_verify_family(ctx, (1500, 250), (12000, 6000))
+    run_verify_family(ctx, (1100, 250), (12000, 6000))
     ctx.assumptions += ['harness projection and independent Manifest reader are correct',
                         'TLC evaluates Glep74 operators correctly',
                         'lenient zones (DESIGN 5.1) are not judged']
@@ -109,7 +110,7 @@ def c01(ctx):
 
 def c02(ctx):
     from . import drv_verify
-    run_verify_family(ctx, (600, 100), (6000, 2000), lookups=True, want=('lib',))
+    run_verify_family(ctx, (500, 100), (6000, 2000), lookups=True, want=('lib',))
     n = 4000 if ctx.tier == 'thorough' else 250
     out = core.pool_map(drv_verify.one_tamper, [(ctx.seed, i, {}) for i in range(n)])
     recs = [r for o in out for r in o]
@@ -132,7 +133,8 @@ def c02(ctx):
 
 
 def c07(ctx):
-    run_verify_family(ctx, (1500, 300), (12000, 6000), want=('keep', 'clik', 'lib'))
+    run_verify_family(ctx, (1000, 250), (12000, 6000), want=('keep', 'clik', 'lib'))
+    run_api_growth(ctx, 2000 if ctx.tier == 'thorough' else 80)
     ctx.assumptions += ['handler policy recorded per invocation; order of reports not judged']
     return ctx.finish(rule=RULE_VERIFY + ' C07 judges keep-going calls: bag of reported paths '
                       'against Offending, result against handler returns.')
@@ -399,9 +401,28 @@ def c03(ctx):
     return ctx.finish(rule=RULE_UPDATE)
 
 
+def run_api_growth(ctx, n):
+    """Specification growth (TraceApi.tla): single-path update, find/set_timestamp, `gemato hash`, multi-path
+    verify.  Clauses named C10.x / C07.x count for those properties; X0n clauses are extension findings: they
+    are reported (EXT-FINDING lines, evidence) but are not violations of a listed property."""
+    from . import drv_api as d
+    out = core.pool_map(d.one_tree, [(ctx.seed, i, {}) for i in range(n)])
+    recs = [r for o in out for r in o]
+    metas = [r.pop('meta') for r in recs]
+    ctx.judge('TraceApi', 'TraceApi.cfg', recs, metas, {'module': 'TraceApi'},
+              sig=lambda r: hash(json_key({k: v for k, v in r.items() if k not in ('id', 's0', 's1')})))
+    ext = dict((k, v) for k, v in ctx.other_props.items() if k.startswith('X'))
+    ctx.extra['extension_records'] = len(recs)
+    ctx.extra['extension_clauses_failed'] = ext
+    for k, v in ext.items():
+        print('EXT-FINDING: %s x%d (outside the listed properties; see DESIGN 20)' % (k, v))
+
+
 def c10(ctx):
     run_update_family(ctx, 500, 12000)
-    return ctx.finish(rule=RULE_UPDATE)
+    run_api_growth(ctx, 2000 if ctx.tier == 'thorough' else 150)
+    return ctx.finish(rule=RULE_UPDATE + ' Plus TraceApi.tla: loader.update_entry_for_path + save judged with the same '
+                      'preservation clauses (the "directory being updated" is the path).')
 
 
 def c12(ctx):
@@ -668,7 +689,12 @@ def c19(ctx):
     # create, edit, update with the profile: the update family's oracle
     m2 = max(n // 3, 60)
     out = core.pool_map(d.one_repo_update, [(ctx.seed, i, {}) for i in range(m2)])
-    urecs = [r for o in out for r in o]
+    allr = [r for o in out for r in o]
+    precs = [r for r in allr if r.get('mode') == 'update']
+    urecs = [r for r in allr if r.get('mode') != 'update']
+    pmetas = [r.pop('meta') for r in precs]
+    ctx.judge('TraceProfile', 'TraceProfile.cfg', precs, pmetas, {'module': 'TraceProfile'},
+              sig=lambda r: hash((r['profile'], len(r['written']), len(r['newfiles']), r['end'])))
     umetas = [r.pop('meta') for r in urecs]
     res = {}
     sub = core.Ctx('C19', ctx.tier, ctx.seed)        # same property id: clauses of C03/C10/C12/C13 are other properties'
